@@ -21,6 +21,7 @@ from .. import c16_scen as S
 from .. import rsclient
 
 PROPERTY = "C16"
+LEVEL = "fault_enumeration"  # every step index of a generated run is enumerated as the snapshot point
 RULE = ("scenario = generated ROM (prologue, main loop, interrupt handler, subroutine from decoder-verified "
         "templates: IMR/ISR/KOL/KOH/USR/LCC writes, KIL/ISR/SSR reads logged to RAM, LCD instruction/data/status "
         "accesses, memory-card and RAM stores, HALT/OFF/WAIT, CALL/RET, stack ops) x timer periods x host "
